@@ -96,7 +96,7 @@ class Harness:
         return self.ctx.fresh(kind, hint)
 
 
-def run_contract(cc, config=None, max_paths=20000, name=None, extra_roots=(), budget_s=600):
+def run_contract(cc, config=None, max_paths=20000, name=None, extra_roots=(), budget_s=600, worklist=None, slice_s=None):
     """Explore every path of the contract's target under `config`."""
     ensure_repo_on_path()
     config = dict(config or {})
@@ -106,10 +106,15 @@ def run_contract(cc, config=None, max_paths=20000, name=None, extra_roots=(), bu
     res = TaskResult(tname, target)
     func = resolve_target(target) if not getattr(cc, "lemma", False) else None
     t0 = time.time()
-    worklist = [[]]
+    worklist = [list(w) for w in worklist] if worklist else [[]]
+    res.leftover = []
     seen = 0
     roots = default_roots() + list(extra_roots) + list(getattr(cc, "extra_roots", ()))
     while worklist:
+        if slice_s is not None and seen > 0 and time.time() - t0 > slice_s:
+            # time slice used up: hand the unexplored subtrees back to the scheduler
+            res.leftover = worklist
+            break
         if time.time() - t0 > budget_s:
             res.undecided.append((tname, f"path exploration budget of {budget_s}s exceeded"))
             break
@@ -120,6 +125,13 @@ def run_contract(cc, config=None, max_paths=20000, name=None, extra_roots=(), bu
             break
         ctx = Ctx(dec)
         it = Interp(ctx, roots)
+        try:
+            from contracts.trusted import MODULE_CACHES
+
+            it.module_caches.update(MODULE_CACHES)
+        except ImportError:
+            pass
+        it.task_name = tname
         outcome, detail = "ok", ""
         try:
             _run_one(cc, func, it, ctx, config, res, tname)
